@@ -154,7 +154,7 @@ theorem call_eq (s : Py.SingletonCls κ) (r : Reg κ) (h : Rep s r) (canon : Opt
       Rep ((py_Singleton_call canon name fresh initKeys).exec s).2 (r.callFull canon name fresh initKeys auto).1) := by
   unfold py_Singleton_call
   simp only [exec_ite, exec_bind, exec_get, exec_pure, exec_throw, exec_lift, exec_modify, exec_construct]
-  simp only [Py.dictHas, Py.dictHasO, Py.dictGetOpt, Py.dictGetOptO, Py.dictGet, Py.dictGetO, Py.unwrap, Py.keyOf, Py.attrOf]
+  simp only [Py.dictHas, Py.dictHasO, Py.dictGetOpt, Py.dictGetOptO, Py.dictGet, Py.dictGetKO, Py.unwrap, Py.keyOf, Py.attrOf]
   cases canon with
   | none =>
     cases hne : name.isEmpty <;> unfold Reg.callFull
